@@ -1,9 +1,14 @@
 package props
 
 import (
+	"go/ast"
+	"go/types"
+
 	"fmt"
+	"golang.org/x/tools/go/types/typeutil"
 	"sort"
 	"strings"
+	"verif/internal/load"
 
 	"verif/internal/an"
 	"verif/internal/flow"
@@ -11,12 +16,12 @@ import (
 
 func init() {
 	register(&Property{
-		ID:        "C11",
-		Technique: "static analysis: registry-resolved command tables; argument-count abstract interpretation by exhaustive enumeration of len(cmd.Args) over the labelled CFGs of the leader-side check and the apply handler (with concrete unrolling of step loops); non-negativity dataflow from parsed client integers to slice bounds; typestate of values returned together with an error; ORDER rules on batch abort and recover",
+		ID:          "C11",
+		Technique:   "static analysis: registry-resolved command tables; argument-count abstract interpretation by exhaustive enumeration of len(cmd.Args) over the labelled CFGs of the leader-side check and the apply handler (with concrete unrolling of step loops); non-negativity dataflow from parsed client integers to slice bounds; typestate of values returned together with an error; ORDER rules on batch abort and recover",
 		Explanation: "Decides: (A1) for every registered write command, every argument count that the leader-side handler lets through to the propose call is safe for the apply handler of the same name and the module functions it hands the arguments to: no index or slice of cmd.Args can be out of range (decided for each count 0..31 and for large even/odd counts, loops over the arguments unrolled concretely), including ApplyRaftRequest's own cmd.Args[0]/[1]; (A2) every proposable command name has an apply handler; (A3) a handler error reaches the batch abort, and a value returned together with an error is never stored unchecked; (A4) the connection path recovers from panics; (A5) an integer parsed from a client argument on the apply path cannot reach a slice bound, index or allocation size while possibly negative.",
-		NotDecided: "upper-bound index panics that depend on relations between values, nil dereferences, panics inside engines and third-party parsers, arithmetic overflow, size limits, the effect on the next command beyond the batch-abort order, read and merge commands (their panics are recovered on the connection path).",
+		NotDecided:  "upper-bound index panics that depend on relations between values, nil dereferences, panics inside engines and third-party parsers, arithmetic overflow, size limits, the effect on the next command beyond the batch-abort order, read and merge commands (their panics are recovered on the connection path).",
 		Assumptions: []string{"argument counts >= 32 behave like the representatives 40 (even) and 41 (odd)", "a branch whose condition does not depend on the argument count alone may go either way", "commands reach the apply handler with the argument vector the leader proposed (rebuildFirstKeyAndPropose rewrites only Args[1])"},
-		Run: runC11,
+		Run:         runC11,
 	})
 }
 
@@ -182,3 +187,345 @@ func compactInts(ns []int) string {
 }
 
 var _ = flow.True
+
+func init() {
+	old := registry["C11"].Run
+	registry["C11"].Run = func(c *Ctx) { old(c); c11A5(c) }
+}
+
+// A5: client integers never reach a slice bound / index / allocation size while possibly negative.
+func c11A5(c *Ctx) {
+	r := c.R
+	r.Clause("C11-A5", "an integer parsed from a client argument on the apply path is non-negative wherever it is used as slice bound, index or allocation size")
+	applies, err := c.W.Registrations("node.(*kvStoreSM).registerHandlers")
+	if err != nil {
+		r.Unknown("C11-A5", "registry of kvStoreSM.registerHandlers", "", err.Error())
+		return
+	}
+	var seeds []*an.Unit
+	for _, a := range applies {
+		if a.Kind == "RegisterInternal" {
+			seeds = append(seeds, a.Unit)
+		}
+	}
+	t := &an.SignedTaint{W: c.W}
+	t.Run(seeds)
+	sinks := t.Sinks()
+	r.Note("C11-A5: %d variables carry a parsed client integer in %d functions; %d sinks", len(t.Tainted), len(t.Funcs), len(sinks))
+	r.Min("C11-A5", len(t.Tainted), 20, "variables holding parsed client integers on the apply path")
+	for _, s := range sinks {
+		u := s.U
+		v := u.C.TermOfObj(s.Var)
+		construct := fmt.Sprintf("%s: %s %s uses client integer %s", u.Name, s.Kind, clipS(u.C.Term(s.Expr), 50), clipS(v, 40))
+		if t.NonNeg(u, s.Expr, s.Site, 0) {
+			r.Ok("C11-A5", construct, u.Pos(s.Site.Pos), "non-negative here: sign test on the path, or every reaching definition is non-negative")
+		} else {
+			r.Bad("C11-A5", construct, u.Pos(s.Site.Pos), fmt.Sprintf("no sign test on the way: a negative client value panics here (%s); pc = %s", t.Tainted[s.Var], clipS(u.SitePC(s.Site).String(), 300)))
+		}
+	}
+}
+
+func init() {
+	old := registry["C11"].Run
+	registry["C11"].Run = func(c *Ctx) { old(c); c11A3(c); c11A4(c) }
+}
+
+func c11A3(c *Ctx) {
+	r := c.R
+	r.Clause("C11-A3", "an erroring handler leaves nothing behind: batch abort on error; non-aborting errors only with a clean batch; no value stored that came with an unchecked error")
+	// (i) the apply loop aborts the shared batch when the handler fails
+	if u := c.unit("C11-A3", "node.(*kvStoreSM).ApplyRaftRequest"); u != nil {
+		h := u.Match(an.DynCall("h"))
+		if len(h) != 1 {
+			r.Unknown("C11-A3", "ApplyRaftRequest: dispatch h(cmd, reqTs)", "", fmt.Sprintf("found %d dynamic handler calls", len(h)))
+		} else {
+			// the error variable assigned from the handler call
+			errName := ""
+			for _, s := range u.Sites {
+				if s.Kind == flow.SStore && s.Tuple != nil && s.TupleIdx == 1 && s.Block == h[0].Block && s.NodeIdx == h[0].NodeIdx {
+					errName = u.C.Term(s.LHS)
+				}
+			}
+			if errName == "" {
+				r.Unknown("C11-A3", "ApplyRaftRequest: error result of the handler call", u.Pos(h[0].Pos), "not bound to a variable")
+			} else {
+				need := an.Call("rockredis.IsNeedAbortError")
+				r.Follow("C11-A3", u, an.DynCall("h"), []an.M{need}, an.FollowOpts{Assume: errName + " != nil", Min: 1})
+				r.ArgValues("C11-A3", u, need, 0, []string{errName}, 1)
+				r.Follow("C11-A3", u, need, []an.M{an.Call("node.IBatchOperator.AbortBatchForError")}, an.FollowOpts{FromSuccess: an.IsTrue, Min: 1})
+				r.ArgValues("C11-A3", u, an.DynCall("h"), 0, []string{"cmd"}, 1)
+			}
+		}
+	}
+	if u := c.unit("C11-A3", "node.(*kvbatchOperator).AbortBatchForError"); u != nil {
+		// the store's batch is wiped on every path, batched or not
+		r.Order("C11-A3", u, an.Return(), []an.M{an.Call("node.KVStore.AbortBatch", "node.(*KVStore).AbortBatch", "rockredis.(*RockDB).AbortBatch")}, an.OrderOpts{Min: 2})
+	}
+	// (ii) errors that do not abort the batch are returned only where the batch is still clean
+	writes := c.W.Effects("rockredis", isBatchWrite)
+	var exempt []string
+	if u := c.unit("C11-A3", "rockredis.IsNeedAbortError"); u != nil {
+		for _, s := range u.Sites {
+			if s.Kind != flow.SReturn || !s.Block.Reachable() || u.C.Term(s.Ret.Results[0]) != "false" {
+				continue
+			}
+			atoms := map[string]*flow.F{}
+			pc := u.SitePC(s)
+			pc.Atoms(atoms)
+			// the path condition must imply "err is one of X1, X2, ..": collect the identity tests on p0
+			var alts []*flow.F
+			var names []string
+			for _, a := range atoms {
+				if a.Cmp == nil || a.Cmp.Op != "==" {
+					continue
+				}
+				other := ""
+				if a.Cmp.L == "p0" {
+					other = a.Cmp.R
+				} else if a.Cmp.R == "p0" {
+					other = a.Cmp.L
+				}
+				if other != "" {
+					alts = append(alts, a)
+					names = append(names, other)
+				}
+			}
+			if res := flow.Implies(pc, flow.Or(alts...)); len(alts) > 0 && res.Holds && res.Undecided == "" {
+				exempt = append(exempt, names...)
+			} else {
+				r.Unknown("C11-A3", "rockredis.IsNeedAbortError: a 'no abort needed' return that is not an identity test against error values", u.Pos(s.Pos), "pc = "+pc.String())
+			}
+		}
+	}
+	sort.Strings(exempt)
+	r.Note("C11-A3: errors that do not abort the batch: %v", exempt)
+	nRet := 0
+	isExempt := func(t string) bool {
+		for _, e := range exempt {
+			if e == t {
+				return true
+			}
+		}
+		return false
+	}
+	// functions that may hand back a non-aborting error: literally, or by passing on the error of such a function
+	returners := map[string]string{}
+	var rockUnits []*an.Unit
+	for _, fn := range c.P.Funcs() {
+		if len(exempt) == 0 || !strings.HasPrefix(fn.Name, "rockredis.") || fn.Decl.Body == nil {
+			continue
+		}
+		if u, err := c.W.Unit(fn.Name); err == nil {
+			rockUnits = append(rockUnits, u)
+		}
+	}
+	// exemptAt: the error returned at this site may be a non-aborting one; returns which
+	siteOf := func(u *an.Unit, call *ast.CallExpr) *an.Site {
+		for _, cs := range u.Sites {
+			if cs.Kind == flow.SCall && cs.Call == call {
+				return cs
+			}
+		}
+		return nil
+	}
+	// exemptAt: which non-aborting error may be returned here, and through which callee call it came
+	exemptAt := func(u *an.Unit, s *an.Site) (string, *an.Site) {
+		last := ast.Unparen(s.Ret.Results[len(s.Ret.Results)-1])
+		if t := u.C.Term(last); isExempt(t) {
+			return t, nil
+		}
+		if call, ok := last.(*ast.CallExpr); ok {
+			if f, ok := typeutil.Callee(u.Info(), call).(*types.Func); ok {
+				if e, ok := returners[load.QualName(f)]; ok {
+					return e, siteOf(u, call)
+				}
+			}
+		}
+		id, ok := last.(*ast.Ident)
+		if !ok {
+			return "", nil
+		}
+		obj := u.Info().ObjectOf(id)
+		for _, d := range u.Sites {
+			if d.Kind != flow.SStore || d.Local != obj || d.Index {
+				continue
+			}
+			var rhs ast.Expr = d.RHS
+			if rhs == nil {
+				rhs = d.Tuple
+			}
+			if rhs == nil {
+				continue
+			}
+			if call, ok := ast.Unparen(rhs).(*ast.CallExpr); ok {
+				if f, ok := typeutil.Callee(u.Info(), call).(*types.Func); ok {
+					if e, ok := returners[load.QualName(f)]; ok && reaches(u, d, s) {
+						return e, siteOf(u, call)
+					}
+				}
+			}
+			if t := u.C.Term(rhs); isExempt(t) && reaches(u, d, s) {
+				return t, nil
+			}
+		}
+		return "", nil
+	}
+	for changed := true; changed; {
+		changed = false
+		for _, u := range rockUnits {
+			if _, done := returners[u.Name]; done {
+				continue
+			}
+			for _, s := range u.Sites {
+				if s.Kind == flow.SReturn && s.Block.Reachable() && len(s.Ret.Results) > 0 {
+					if e, _ := exemptAt(u, s); e != "" {
+						returners[u.Name] = e
+						changed = true
+						break
+					}
+				}
+			}
+		}
+	}
+	for _, u := range rockUnits {
+		var wsites []*flow.Site
+		for _, s := range u.Sites {
+			if s.Kind == flow.SCall && !s.Deferred {
+				q := an.CalleeName(s)
+				if isBatchWrite(q) || writes[q] {
+					wsites = append(wsites, s)
+				}
+			}
+		}
+		for _, s := range u.Sites {
+			if s.Kind != flow.SReturn || !s.Block.Reachable() || len(s.Ret.Results) == 0 {
+				continue
+			}
+			last, via := exemptAt(u, s)
+			if last == "" {
+				continue
+			}
+			nRet++
+			dirty := ""
+			for _, w := range wsites {
+				// an error passed on from a callee: the callee's own exempt returns are checked in the
+				// callee; here only writes made before that call count
+				target := s
+				if via != nil {
+					if w == via {
+						continue
+					}
+					target = via
+				}
+				if reaches(u, w, target) {
+					dirty = an.CalleeName(w) + " at " + u.Pos(w.Pos)
+					break
+				}
+			}
+			r.Check("C11-A3", fmt.Sprintf("%s: may return %s (no batch abort) only while the write batch is untouched", u.Name, last), u.Pos(s.Pos), dirty == "",
+				"a batch write can precede this return: "+dirty+"; the buffered write leaks into the next command")
+		}
+	}
+	r.Min("C11-A3", nRet, 10, "returns of non-aborting errors in package rockredis")
+	// (iii) a value obtained together with an error is stored only after the error was tested
+	nPut := 0
+	for _, fn := range c.P.Funcs() {
+		if !strings.HasPrefix(fn.Name, "rockredis.") || fn.Decl.Body == nil {
+			continue
+		}
+		u, err := c.W.Unit(fn.Name)
+		if err != nil {
+			continue
+		}
+		for _, put := range u.Match(an.Call("engine.WriteBatch.Put", "engine.WriteBatch.Merge")) {
+			for ai, a := range put.Call.Args {
+				id, ok := ast.Unparen(a).(*ast.Ident)
+				if !ok {
+					continue
+				}
+				obj := u.Info().ObjectOf(id)
+				for _, d := range u.Sites {
+					if d.Kind != flow.SStore || d.Local != obj || d.Tuple == nil || d.Index {
+						continue
+					}
+					call, ok := ast.Unparen(d.Tuple).(*ast.CallExpr)
+					if !ok {
+						continue
+					}
+					// the tuple's last result is an error?
+					tt, ok := u.Info().TypeOf(call).(*types.Tuple)
+					if !ok || tt.Len() < 2 || tt.At(tt.Len()-1).Type().String() != "error" {
+						continue
+					}
+					if f, ok := typeutil.Callee(u.Info(), call).(*types.Func); ok && isCommittedRead(load.QualName(f)) {
+						continue // engine read errors are I/O faults, outside the property's quantifier (client input)
+					}
+					// only definitions that dominate the put (the value used is this one on every path)
+					if !(d.Block == put.Block && d.NodeIdx < put.NodeIdx) && !(d.Block != put.Block && u.G.Dominates(d.Block, put.Block)) {
+						continue
+					}
+					// a later re-definition between would make this irrelevant; keep it simple: require the test
+					nPut++
+					var csite *flow.Site
+					for _, cs := range u.Sites {
+						if cs.Kind == flow.SCall && cs.Call == call {
+							csite = cs
+						}
+					}
+					if csite == nil {
+						continue
+					}
+					me := an.AnyCall().Where("this put", func(_ *an.Unit, x *an.Site) bool { return x == put })
+					pre := an.AnyCall().Where(an.CalleeName(csite), func(_ *an.Unit, x *an.Site) bool { return x == csite }).Ok(an.NilErr)
+					_ = ai
+					r.OrderSites("C11-A3", u, u.Match(me), func(*flow.Site) string {
+						return "batch write of " + id.Name + " (returned by " + an.CalleeName(csite) + " together with an error)"
+					}, []an.M{pre}, an.OrderOpts{})
+				}
+			}
+		}
+	}
+	r.Min("C11-A3", nPut, 5, "batch writes of values that were returned together with an error")
+}
+
+func c11A4(c *Ctx) {
+	r := c.R
+	r.Clause("C11-A4", "panics are contained on the connection path; the deliberate apply-path panic cannot be triggered by client text")
+	if u := c.unit("C11-A4", "server.(*Server).serverRedis"); u != nil {
+		// a deferred closure calling recover() is registered before anything else happens
+		ok := false
+		var dpos string
+		for _, s := range u.Sites {
+			if s.Kind == flow.SCall && s.Deferred && s.Block == u.G.Entry {
+				if fl, isLit := ast.Unparen(s.Call.Fun).(*ast.FuncLit); isLit {
+					ast.Inspect(fl.Body, func(n ast.Node) bool {
+						if call, isCall := n.(*ast.CallExpr); isCall {
+							if id, isID := call.Fun.(*ast.Ident); isID && id.Name == "recover" {
+								ok = true
+								dpos = u.Pos(s.Pos)
+							}
+						}
+						return true
+					})
+				}
+				// no call may precede it
+				for _, o := range u.Sites {
+					if o.Kind == flow.SCall && !o.Deferred && o.Block == s.Block && o.SameBlockBefore(s) {
+						ok = false
+					}
+				}
+			}
+		}
+		r.Check("C11-A4", "server.(*Server).serverRedis: deferred recover() covers the whole dispatch", dpos, ok, "")
+	}
+	if u := c.unit("C11-A4", "node.isUnrecoveryError"); u != nil {
+		r.Returns("C11-A4", u, []an.ReturnClass{
+			{Name: "panic the replica", Match: func(u *an.Unit, s *an.Site) bool { return u.C.Term(s.Ret.Results[0]) == "true" },
+				Guard: "strings.HasPrefix(p0.Error(), _)"},
+			{Name: "ordinary error", Match: func(u *an.Unit, s *an.Site) bool { return u.C.Term(s.Ret.Results[0]) == "false" }},
+		}, 2)
+	}
+	if u := c.unit("C11-A4", "node.(*kvStoreSM).ApplyRaftRequest"); u != nil {
+		r.Guard("C11-A4", u, an.Call("builtin.panic"), "node.isUnrecoveryError(_)", an.GuardOpts{Min: 1})
+	}
+}
